@@ -45,6 +45,9 @@ func (eval Evaluator) Trace(ctIn *Ciphertext, logN int, opOut *Ciphertext) (err 
 
 	opOut.Resize(opOut.Degree(), level)
 
+	// Domain of the input (opOut can be ctIn, whose flag is overwritten below)
+	isNTT := ctIn.IsNTT
+
 	*opOut.MetaData = *ctIn.MetaData
 
 	gap := 1 << (params.LogN() - logN - 1)
@@ -69,7 +72,7 @@ func (eval Evaluator) Trace(ctIn *Ciphertext, logN int, opOut *Ciphertext) (err 
 		ringQ.MulScalarBigint(ctIn.Value[0], NInv, opOut.Value[0])
 		ringQ.MulScalarBigint(ctIn.Value[1], NInv, opOut.Value[1])
 
-		if !ctIn.IsNTT {
+		if !isNTT {
 			ringQ.NTT(opOut.Value[0], opOut.Value[0])
 			ringQ.NTT(opOut.Value[1], opOut.Value[1])
 			opOut.IsNTT = true
@@ -105,7 +108,7 @@ func (eval Evaluator) Trace(ctIn *Ciphertext, logN int, opOut *Ciphertext) (err 
 			ringQ.Add(opOut.Value[1], buff.Value[1], opOut.Value[1])
 		}
 
-		if !ctIn.IsNTT {
+		if !isNTT {
 			ringQ.INTT(opOut.Value[0], opOut.Value[0])
 			ringQ.INTT(opOut.Value[1], opOut.Value[1])
 			opOut.IsNTT = false
@@ -282,7 +285,8 @@ func (eval Evaluator) PartialTracesSum(ctIn *Ciphertext, offset, n int, opOut *C
 		}
 	}
 
-	if !ctIn.IsNTT {
+	// n == 1: opOut is a copy of ctIn, in the domain of ctIn
+	if !ctIn.IsNTT && n > 1 {
 		ringQ.INTT(opOut.Value[0], opOut.Value[0])
 		ringQ.INTT(opOut.Value[1], opOut.Value[1])
 	}
@@ -319,6 +323,9 @@ func (eval Evaluator) InnerFunction(ctIn *Ciphertext, batchSize, n int, f func(a
 
 	levelQ := utils.Min(ctIn.Level(), opOut.Level())
 
+	// Domain of the input (opOut can be ctIn, whose flag is overwritten below)
+	isNTT := ctIn.IsNTT
+
 	ringQ := params.RingQ().AtLevel(levelQ)
 
 	opOut.Resize(opOut.Degree(), levelQ)
@@ -334,7 +341,7 @@ func (eval Evaluator) InnerFunction(ctIn *Ciphertext, batchSize, n int, f func(a
 	*ctInNTT.MetaData = *ctIn.MetaData
 	ctInNTT.IsNTT = true
 
-	if !ctIn.IsNTT {
+	if !isNTT {
 		ringQ.NTT(ctIn.Value[0], ctInNTT.Value[0])
 		ringQ.NTT(ctIn.Value[1], ctInNTT.Value[1])
 	} else {
@@ -342,7 +349,7 @@ func (eval Evaluator) InnerFunction(ctIn *Ciphertext, batchSize, n int, f func(a
 	}
 
 	if n == 1 {
-		opOut.Copy(ctIn)
+		opOut.Copy(ctInNTT)
 	} else {
 
 		// Accumulator mod Q
@@ -431,9 +438,10 @@ func (eval Evaluator) InnerFunction(ctIn *Ciphertext, batchSize, n int, f func(a
 		}
 	}
 
-	if !ctIn.IsNTT {
+	if !isNTT {
 		ringQ.INTT(opOut.Value[0], opOut.Value[0])
 		ringQ.INTT(opOut.Value[1], opOut.Value[1])
+		opOut.IsNTT = false
 	}
 
 	return
